@@ -1,4 +1,5 @@
 import GoSSE.Proofs.GenEquiv
+import GoSSE.Proofs.GenEquivEvent
 import GoSSE.Proofs.Lines
 import GoSSE.Proofs.ParserRun
 import GoSSE.Proofs.ParserStop
@@ -149,5 +150,47 @@ theorem translated_FieldParser_RemoveBOM_is_model (fuel : Nat) (f : Gen.FieldPar
 
 /-- non-vacuity: the translated `NextChunk` on "ab\r\ncd" -/
 example : Gen.NextChunk 8 [97, 98, 13, 10, 99, 100] = .ok ([97, 98], [99, 100], true) := by rfl
+
+
+/-! #### The interpreter: event.go's `read` as translated
+
+`GoSSE/Gen/Event.lean` holds `read` — the iterator both `sse.Read` and the client's connection are built on — as
+translated from event.go: the `for p.Next(&f)` loop, the `switch` over the field names (data buffer, event type, the
+NUL check of ids, the digits-only and `ParseInt` checks of `retry`, dispatch on the blank line through the local
+function literal `doYield`), and what happens at the end of the stream (the pending event is dispatched only at a
+clean EOF; `Read` swallows EOF, a connection reports it). `parser.Parser` is not translated (`parser.New` installs a
+split function that writes to the parser from inside `bufio.Scanner.Scan`): `read` takes its fields from an interface
+(`GoRT.ParserI`), instantiated here with the hand-written model of the parser (`parserI`), whose pieces — `splitFunc`,
+`bufio.Scanner.Scan`, `FieldParser.Next` — are themselves proved equal to the translated source above. The consumer
+records what it is given and stops at its `k`-th event (`yieldOf`), a connection's `onRetry` records the value. -/
+
+theorem translated_read_is_model (conn : Bool) (stopAt : Option Nat) (lastID : Bytes) (src : Source) (cfg : Option (Nat × Int))
+    (fuel : Nat) (hs : stopped stopAt [] = false) (hF : src.size + 4 < fuel) :
+    Gen.read fuel (pure (GenEquiv.parserI { sc := mkScanner src cfg })) lastID (GenEquiv.onRetryOf conn) (!conn)
+        (GenEquiv.yieldOf stopAt) {} =
+      .ok { outs := (implRun conn lastID src cfg stopAt).1, err := GenEquiv.perrStr (implRun conn lastID src cfg stopAt).2.1 } := by
+  have hinv := ClientRead.mkScanner_inv src cfg
+  have hM : ClientRead.M3 ({ sc := mkScanner src cfg } : Parser) + 1 ≤ src.size + 4 := by
+    simp only [ClientRead.M3, ClientRead.M, hinv.2.1, hinv.2.2]
+    simp
+  rw [GenEquiv.read_eq conn stopAt lastID { sc := mkScanner src cfg } (src.size + 4) fuel hinv.1 hM hF hs]
+  have h := GenEquiv.implRun_runFrom conn lastID src cfg stopAt
+  rw [← h]
+
+/-- … hence, with `read_conforms_or_toolong`: what the translated `read` hands a consumer that never stops is the
+WHATWG specification's output, unless the run ends in `bufio.ErrTooLong` (then a prefix of it). -/
+theorem translated_read_conforms (conn : Bool) (lastID : Bytes) (src : Source) (cfg : Option (Nat × Int)) (fuel : Nat)
+    (hF : src.size + 4 < fuel) :
+    ∃ c : GenEquiv.Cons,
+      Gen.read fuel (pure (GenEquiv.parserI { sc := mkScanner src cfg })) lastID (GenEquiv.onRetryOf conn) (!conn)
+        (GenEquiv.yieldOf none) {} = .ok c ∧
+      let sp := Spec.run .gosse conn lastID src.chunks.flatten (if src.endErr then .err else .eof)
+      ((c.err = some "TOOLONG" ∧ c.outs <+: sp.1) ∨ (c.outs = sp.1 ∧ c.err = GenEquiv.perrStr (endErr conn sp.2))) := by
+  refine ⟨_, translated_read_is_model conn none lastID src cfg fuel rfl hF, ?_⟩
+  have h := read_conforms_or_toolong conn lastID src cfg
+  simp only at h ⊢
+  rcases h with ⟨h1, h2⟩ | ⟨h1, h2⟩
+  · left; exact ⟨by rw [h1]; rfl, h2⟩
+  · right; exact ⟨h1, by rw [h2]⟩
 
 end GoSSE.Props.C01
